@@ -44,6 +44,35 @@ def random_cases(rnd, recs, n):
     return out
 
 
+BOUNDS = [0, 1, 0x0F, 0x10, 0x7E, 0x7F, 0x80, 0x81, 0xFE, 0xFF, 0x100, 0x101, 0x1FF, 0x200, 0x7FFF, 0x8000, 0xFF00, 0xFFFE]
+
+
+def label_boundary_cases(rnd, n_random=0):
+    """A label whose ADDRESS sits on every width boundary (..., $FF, $100, $101, ...) used - bare and in label op constant expressions - in every operand
+    position of fixed width: an 8-bit field holds it exactly when it fits, a 16-bit field always."""
+    uses = []
+    for mn, form, kw, size in (("LDA", "imm", {}, 2), ("ADDB", "imm", {}, 2), ("CMPA", "imm", {}, 2), ("LDX", "imm", {}, 3), ("CMPY", "imm", {}, 4),
+                               ("LDA", "mem", {"force": "<"}, 2), ("STB", "mem", {"force": "<"}, 2), ("LDA", "mem", {"force": ">"}, 3), ("JMP", "mem", {}, 3),
+                               ("LDB", "mem", {}, 3), ("LDB", "mem", {}, 2), ("JMP", "extind", {}, 4), ("LDA", "extind", {}, 4)):
+        uses.append((mn, form, kw, size))
+    exprs = [("", 0), ("+", 1), ("-", 1), ("+", 2), ("*", 2), ("/", 2), ("+", 255), ("-", 255), ("+", 256), ("*", 1), ("/", 1)]
+    cases = []
+    combos = [(a, u, e) for a in BOUNDS for u in uses for e in exprs]
+    for _ in range(n_random):
+        combos.append((rnd.randint(0, 0xFFFE), rnd.choice(uses), (rnd.choice(["+", "-", "*", "/"]), rnd.choice([1, 2, 3, 16, 128, 255, 256, 1000]))))
+    for a, (mn, form, kw, size), (op, c) in combos:
+        e = ex(sym("L"), op, num(c)) if op else ex(sym("L"))
+        use = stmt(mn, form, label="U", expr=e, **kw)
+        if (a + len(cases)) % 2 == 0 or a < size:     # label before its use
+            prog = [stmt("ORG", "org", expr=ex(num(a, "hex4"))), stmt("NOP", label="L"), use, stmt("NOP", label="E")]
+            focus = 3
+        else:                                          # use first: the label lands on a when the use takes `size` bytes
+            prog = [stmt("ORG", "org", expr=ex(num(a - size, "hex4"))), use, stmt("NOP", label="L"), stmt("NOP", label="E")]
+            focus = 2
+        cases.append(Case(prog, focus=focus, tag="label-boundary"))
+    return cases
+
+
 def run(ctx):
     thorough = ctx.tier == "thorough"
     rnd = random.Random(ctx.seed * 32452843 + 4)
@@ -54,6 +83,7 @@ def run(ctx):
         recs = rnd.sample(recs, 400000)
     asmcheck.run_suite(ctx, "expr-table", [Case(r["prog"], focus=r["focus"], tag="table") for r in recs])
     asmcheck.run_suite(ctx, "expr-random", random_cases(rnd, recs, 150000 if thorough else 8000))
+    asmcheck.run_suite(ctx, "label-boundary", label_boundary_cases(rnd, 30000 if thorough else 1500))
     ctx.cov["rule"] = ("TLC-enumerated frames: operand position (imm8, imm16, extended, [extended], index offset, PCR target, branch target, FCB, FDB, RMB, EQU) x "
                        "{number in each spelling, EQU before/after, label before/after} op {same} for + - * /, two origins (labels below / above $100); plus seeded random "
                        "redraws of both terms and of the EQU values. Judged by TLC: encoded value = Asm!Eval under the environment the listing claims, symbol-table "
